@@ -24,6 +24,12 @@ import (
 //   rel:<id>   p sends PUBREL <id>                                            (id held)
 //   drop       p's network connection drops       rc   p reconnects, clean start 0
 //   other      o publishes an unrelated QoS 1 message on t
+//   hk         (arg "hk=N" pool, "tick=S" seconds, default 2) the virtual clock advances by
+//              S seconds and the broker's periodic housekeeping (event loop: expired
+//              clients, retained, delayed wills, expired in-flight records) runs once, with
+//              the server's DEFAULT capabilities (MaximumMessageExpiryInterval 86400 s,
+//              session expiry of p 100000 s or unlimited): N*S stays far below every expiry,
+//              so for the reference model housekeeping is a no-op
 // Reference model (MQTT 4.3.3, DESIGN A.4): per packet id Idle -> Held(tag) on first
 // PUBLISH -> Idle on PUBREL; the state survives reconnection with session present. The
 // message must reach s exactly once by the time PUBCOMP is received (at PUBLISH or at
@@ -32,7 +38,9 @@ import (
 type c08Model struct {
 	held      map[uint16]string // packet id -> tag of the exchange in progress
 	reconn    map[uint16]bool   // a reconnect happened since the first transmission
-	fwd       map[string]int    // tag -> copies received by s
+	swept     map[uint16]bool   // housekeeping ran since the first transmission
+	hks       int
+	fwd       map[string]int // tag -> copies received by s
 	exch      int
 	tx        int
 	conns     int
@@ -44,7 +52,7 @@ type c08Model struct {
 func (m *c08Model) String() string {
 	var hs []string
 	for id, t := range m.held {
-		hs = append(hs, fmt.Sprintf("%d=%s/%v", id, t, m.reconn[id]))
+		hs = append(hs, fmt.Sprintf("%d=%s/%v/%v", id, t, m.reconn[id], m.swept[id]))
 	}
 	sort.Strings(hs)
 	var fs []string
@@ -52,7 +60,7 @@ func (m *c08Model) String() string {
 		fs = append(fs, fmt.Sprintf("%s=%d", t, n))
 	}
 	sort.Strings(fs)
-	return fmt.Sprintf("held%v fwd%v e%d tx%d c%d o%d conn=%v", hs, fs, m.exch, m.tx, m.conns, m.others, m.connected)
+	return fmt.Sprintf("held%v fwd%v e%d tx%d c%d o%d hk%d conn=%v", hs, fs, m.exch, m.tx, m.conns, m.others, m.hks, m.connected)
 }
 
 func argInt(arg, name string, def int) int {
@@ -94,6 +102,8 @@ func c08Run(arg string) explore.HistFn {
 	ids := argInt(arg, "ids", 1)
 	maxTx := argInt(arg, "tx", 4)
 	maxRc := argInt(arg, "rc", 2)
+	maxHk := argInt(arg, "hk", 0)
+	tickS := argInt(arg, "tick", 2)
 	return func(hist []string) explore.HistResult {
 		h := newH(world.Config{})
 		cnt := map[string]int{}
@@ -102,7 +112,7 @@ func c08Run(arg string) explore.HistFn {
 				cnt[k]++
 			}
 		}
-		m := &c08Model{held: map[uint16]string{}, reconn: map[uint16]bool{}, fwd: map[string]int{}, connected: true}
+		m := &c08Model{held: map[uint16]string{}, reconn: map[uint16]bool{}, swept: map[uint16]bool{}, fwd: map[string]int{}, connected: true}
 		pconn := func() ref.Packet {
 			if ver >= 5 {
 				return world.ConnectPacket("p", 5, false, ref.Prop{ID: ref.PSessionExpiry, Num: 100000})
@@ -143,9 +153,13 @@ func c08Run(arg string) explore.HistFn {
 					m.exch++
 					m.held[id] = fmt.Sprintf("m%d", m.exch)
 					m.reconn[id] = false
+					m.swept[id] = false
 				} else {
 					shape = "dup-before-pubrel"
 					count("dup_retransmissions")
+					if m.swept[id] {
+						count("dup_retransmissions_after_housekeeping")
+					}
 					if m.reconn[id] {
 						count("dup_retransmissions_after_reconnect")
 					}
@@ -172,6 +186,10 @@ func c08Run(arg string) explore.HistFn {
 				if m.reconn[id] && f[0] == "dup" {
 					shape = "dup-after-reconnect"
 				}
+				if m.swept[id] && f[0] == "dup" {
+					// the held state must outlive housekeeping that runs long before any expiry
+					shape += ":after-housekeeping"
+				}
 				collect(shape)
 			case "rel":
 				tag := m.held[id]
@@ -183,17 +201,23 @@ func c08Run(arg string) explore.HistFn {
 					}
 				}
 				collect("pubrel")
+				sfx := ""
+				if m.swept[id] {
+					sfx = ":after-housekeeping"
+					count("pubrel_after_housekeeping")
+				}
 				switch {
 				case comp == nil:
-					h.violate("c08:no-pubcomp", "PUBREL id %d (tag %s) not answered with PUBCOMP: %v", id, tag, got)
+					h.violate("c08:no-pubcomp"+sfx, "PUBREL id %d (tag %s) not answered with PUBCOMP: %v", id, tag, got)
 				case comp.ReasonCode >= 0x80:
-					h.violate("c08:pubcomp>=0x80:exchange-in-progress", "PUBREL id %d for the exchange in progress (tag %s) answered with PUBCOMP reason %#x", id, tag, comp.ReasonCode)
+					h.violate("c08:pubcomp>=0x80:exchange-in-progress"+sfx, "PUBREL id %d for the exchange in progress (tag %s) answered with PUBCOMP reason %#x", id, tag, comp.ReasonCode)
 				}
 				if comp != nil && m.fwd[tag] != 1 {
 					h.violate("c08:not-forwarded-once-at-pubcomp", "exchange %s completed (PUBCOMP) but subscriber holds %d copies", tag, m.fwd[tag])
 				}
 				delete(m.held, id)
 				delete(m.reconn, id)
+				delete(m.swept, id)
 				m.done++
 				count("exchanges_completed")
 			case "drop":
@@ -214,11 +238,30 @@ func c08Run(arg string) explore.HistFn {
 					count("session_not_present")
 					m.held = map[uint16]string{}
 					m.reconn = map[uint16]bool{}
+					m.swept = map[uint16]bool{}
 				}
 				for id := range m.held {
 					m.reconn[id] = true
 				}
 				collect("reconnect")
+			case "hk":
+				m.hks++
+				for id := range m.held {
+					m.swept[id] = true
+				}
+				if len(m.held) > 0 {
+					count("housekeeping_while_exchange_in_progress")
+				}
+				h.W.Tick(int64(tickS) * 1000)
+				h.W.Housekeep()
+				h.logf("clock +%ds, housekeeping at %d", tickS, h.W.Now())
+				if m.connected {
+					got := h.poll("p")
+					if h.Cl["p"].Closed() {
+						h.violate("c08:connection-closed:housekeeping", "broker closed p's connection during housekeeping %d s later: %v", tickS, got)
+					}
+				}
+				collect("housekeeping")
 			case "other":
 				m.others++
 				h.do("o", pub("t", fmt.Sprintf("o%d", m.others), 1, 77))
@@ -246,6 +289,9 @@ func c08Run(arg string) explore.HistFn {
 		if m.others < 1 {
 			next = append(next, "other")
 		}
+		if m.hks < maxHk {
+			next = append(next, "hk")
+		}
 		key := h.W.State() + "|" + m.String()
 		r := h.finish(key, next)
 		r.Counters = cnt
@@ -259,28 +305,40 @@ func init() {
 		c.Rep.Level = "model_checking"
 		c.Rep.Assumption("one client action at a time, broker run to quiescence under the deterministic default schedule (sequential histories)")
 		c.Rep.Assumption("state = reflective dump of *Server plus reference-model state and pool counters; histories merged only if byte-identical")
+		c.Rep.Assumption("housekeeping ops advance the virtual clock by at most 2x3600 s in total: far below the default MaximumMessageExpiryInterval (86400 s) and the session expiry, so the reference model treats them as no-ops")
 		c.Rep.Assumption("forwarding may happen at PUBLISH or at PUBREL (unspecified); exactly one copy is required once PUBCOMP was received, more than one copy is never allowed")
 		var sts []*explore.BFSStats
 		if c.Quick() {
 			sts = append(sts, explore.RunBFS(c, "c08", "v=5,sq=0,ids=1,tx=5,rc=2", 0, 25*time.Second))
 			sts = append(sts, explore.RunBFS(c, "c08", "v=4,sq=2,ids=1,tx=5,rc=2", 0, 20*time.Second))
 			sts = append(sts, explore.RunBFS(c, "c08", "v=5,sq=2,ids=2,tx=5,rc=2", 0, 25*time.Second))
+			sts = append(sts, explore.RunBFS(c, "c08", "v=5,sq=0,ids=1,tx=3,rc=1,hk=2", 0, 20*time.Second))
+			sts = append(sts, explore.RunBFS(c, "c08", "v=4,sq=2,ids=1,tx=3,rc=1,hk=1,tick=3600", 0, 15*time.Second))
 		} else {
 			sts = append(sts, explore.RunBFS(c, "c08", "v=5,sq=0,ids=1,tx=6,rc=3", 0, 2*time.Minute))
 			sts = append(sts, explore.RunBFS(c, "c08", "v=4,sq=2,ids=1,tx=6,rc=3", 0, 2*time.Minute))
 			sts = append(sts, explore.RunBFS(c, "c08", "v=5,sq=2,ids=2,tx=6,rc=2", 0, 4*time.Minute))
 			sts = append(sts, explore.RunBFS(c, "c08", "v=3,sq=0,ids=2,tx=5,rc=2", 0, 2*time.Minute))
+			sts = append(sts, explore.RunBFS(c, "c08", "v=5,sq=0,ids=1,tx=4,rc=2,hk=2", 0, 2*time.Minute))
+			sts = append(sts, explore.RunBFS(c, "c08", "v=4,sq=2,ids=2,tx=4,rc=1,hk=2,tick=3600", 0, 2*time.Minute))
 		}
-		var dups, dupsRc int64
+		var dups, dupsRc, dupsHk int64
 		for _, st := range sts {
 			dups += st.Counters["dup_retransmissions"]
 			dupsRc += st.Counters["dup_retransmissions_after_reconnect"]
+			dupsHk += st.Counters["dup_retransmissions_after_housekeeping"]
+			c.Rep.Count("pubrel_after_housekeeping", st.Counters["pubrel_after_housekeeping"])
+			c.Rep.Count("housekeeping_while_exchange_in_progress", st.Counters["housekeeping_while_exchange_in_progress"])
 			c.Rep.Count("exchanges_completed", st.Counters["exchanges_completed"])
 		}
 		c.Rep.Count("dup_retransmissions", dups)
 		c.Rep.Count("dup_retransmissions_after_reconnect", dupsRc)
+		c.Rep.Count("dup_retransmissions_after_housekeeping", dupsHk)
 		if (dups == 0 || dupsRc == 0) && os.Getenv("VERIF_SCEN") == "" {
 			c.Rep.Add(explore.Violation{Key: "internal:vacuous", Msg: "no DUP retransmission (or none after a reconnect) was exercised"})
+		}
+		if dupsHk == 0 && os.Getenv("VERIF_SCEN") == "" {
+			c.Rep.Add(explore.Violation{Key: "internal:vacuous:housekeeping", Msg: "no DUP retransmission after a housekeeping run was exercised"})
 		}
 	})
 }
